@@ -88,6 +88,11 @@ def run_impl(case):
     offs = [sum(widths[:k]) for k in range(len(widths))]
     if any(a in ("w", "nc") and w > 0 for a, w in list(zip(accs, widths))[:-1]):
         stats["nonreadable_in_middle"] = 1
+    if rnd.random() < 0.3:
+        # a register object may be elaborated more than once (simulated, then synthesised, …):
+        # what is checked below is then its second elaboration
+        Simulator(simutil.wrap(dut))
+        stats["pre_elaborated"] = 1
     sim = Simulator(simutil.wrap(dut))
     sim.add_clock(1e-6)
     rd, wr = dut.element.access.readable(), dut.element.access.writable()
